@@ -346,6 +346,25 @@ class Explorer:
                 if all(k == '1' for k in l):
                     return [(('const', l.get('1', 0)), st)]
                 return [(('lin', lin.norm(l)), st)]
+            if isinstance(node, ast.BinOp) and isinstance(node.op, (ast.Add, ast.Sub)) \
+                    and any(isinstance(x, ast.Call) for x in ast.walk(node)):
+                # operands may be calls of inlinable helpers returning linear forms (e.g. self.occupancy())
+                res = []
+                for lv, s1 in self.ev(node.left, st):
+                    if lv == RAISE:
+                        res.append((RAISE, s1))
+                        continue
+                    for rv, s2 in self.ev(node.right, s1):
+                        if rv == RAISE:
+                            res.append((RAISE, s2))
+                            continue
+                        la, lb = self.val_lin(lv), self.val_lin(rv)
+                        if la is not None and lb is not None:
+                            c = lin.ladd(la, lb, 1 if isinstance(node.op, ast.Add) else -1)
+                            res.append(((('const', c.get('1', 0)) if all(k == '1' for k in c) else ('lin', lin.norm(c))), s2))
+                        else:
+                            res.append((('expr', ast.unparse(node)[:60], next(_uid)), s2))
+                return res
         if isinstance(node, ast.IfExp):
             res = []
             for b, s in self.cond(node.test, st):
@@ -369,6 +388,17 @@ class Explorer:
 
     def idx_key(self, v):
         return v
+
+    def val_lin(self, v):
+        if v is None:
+            return None
+        if v[0] == 'lin':
+            return dict(v[1])
+        if v[0] == 'const' and isinstance(v[1], int) and not isinstance(v[1], bool):
+            return lin.lconst(v[1])
+        if v[0] == 'self' and v[1] == 'capacity':
+            return lin.lvar('cap')
+        return None
 
     def opaque(self, node, st: St):
         """Evaluate nested calls / yields for their effects, return an opaque value."""
@@ -908,6 +938,44 @@ class Explorer:
                             sx.facts[key] = b
                             self.emit(sx, 'cond', node, node=node, text=key, polarity=b, atoms=[], synthetic=False)
                             outs.append((b, sx))
+            return outs
+        if has_effect and isinstance(node, ast.Compare) and len(node.ops) == 1 \
+                and isinstance(node.ops[0], (ast.Lt, ast.LtE, ast.Gt, ast.GtE)):
+            # ordering comparison whose operands call inlinable helpers: evaluate them and compare the linear forms
+            outs = []
+            for lv, s1 in self.ev(node.left, st):
+                if lv == RAISE:
+                    outs.append((RAISE, s1))
+                    continue
+                for rv, s2 in self.ev(node.comparators[0], s1):
+                    if rv == RAISE:
+                        outs.append((RAISE, s2))
+                        continue
+                    la, lb = self.val_lin(lv), self.val_lin(rv)
+                    key = ast.unparse(node)
+                    at_t = at_f = []
+                    if la is not None and lb is not None:
+                        d = lin.ladd(la, lb, -1)
+                        o = {ast.Lt: '<', ast.LtE: '<=', ast.Gt: '>', ast.GtE: '>='}[type(node.ops[0])]
+
+                        def mk(op, dd):
+                            if op in ('>', '>='):
+                                return [({'>': '<', '>=': '<='}[op], lin.norm(lin.lneg(dd)))]
+                            return [(op, lin.norm(dd))]
+                        at_t = mk(o, d)
+                        at_f = mk({'<': '>=', '<=': '>', '>': '<=', '>=': '<'}[o], d)
+                        pa_ = self.path_atoms(s2)
+                        if lin.implies_all(pa_, at_t):
+                            outs.append((True, s2))
+                            continue
+                        if lin.implies_all(pa_, at_f):
+                            outs.append((False, s2))
+                            continue
+                    s_f = s2.clone()
+                    for b, sx, atoms in ((True, s2, at_t), (False, s_f, at_f)):
+                        sx.facts[key] = b
+                        self.emit(sx, 'cond', node, node=node, text=key, polarity=b, atoms=list(atoms), synthetic=False)
+                        outs.append((b, sx))
             return outs
         if has_effect:
             states = []
